@@ -207,6 +207,31 @@ func init() {
 			}
 			return p.ts().Const(uint64(k), 64), true
 		},
+		// vForbidGlobalWrites(): from now on a store by library code to a package-level variable, or to
+		// an object created during package initialisation, is a violation (C14)
+		"vForbidGlobalWrites": func(p *Path, fn *ssa.Function, args []Value) (Value, bool) {
+			p.run.forbidGlobalWrites = true
+			return nil, true
+		},
+		// vSharedObjects(a, b): number of heap objects created after package initialisation that are
+		// reachable from both a and b
+		"vSharedObjects": func(p *Path, fn *ssa.Function, args []Value) (Value, bool) {
+			ra, rb := map[int]bool{}, map[int]bool{}
+			p.reach(args[0], ra, 0)
+			p.reach(args[1], rb, 0)
+			n := 0
+			for id := range ra {
+				if rb[id] {
+					o := p.obj(id)
+					if o.Epoch == -1 || o.Global {
+						continue
+					}
+					n++
+					p.run.note("shared object %d (%s)", id, o.Name)
+				}
+			}
+			return p.ts().Const(uint64(n), 64), true
+		},
 		"vThorough": func(p *Path, fn *ssa.Function, args []Value) (Value, bool) {
 			return p.ts().Bool(p.run.thorough), true
 		},
@@ -406,6 +431,44 @@ func init() {
 		"(*sync.RWMutex).Unlock":  stubZero,
 		"(*sync.RWMutex).RLock":   stubZero,
 		"(*sync.RWMutex).RUnlock": stubZero,
+		"(*sync.Pool).Put": func(p *Path, fn *ssa.Function, args []Value) (Value, bool) {
+			ptr := args[0].(Ptr)
+			key := fmt.Sprintf("%d:%d", ptr.Obj, ptr.Off)
+			if ifc, ok := args[1].(Iface); ok && ifc.T == nil {
+				return nil, true
+			}
+			if p.pools == nil {
+				p.pools = map[string][]Value{}
+			}
+			p.pools[key] = append(p.pools[key], args[1])
+			return nil, true
+		},
+		"(*sync.Pool).Get": func(p *Path, fn *ssa.Function, args []Value) (Value, bool) {
+			ptr := args[0].(Ptr)
+			key := fmt.Sprintf("%d:%d", ptr.Obj, ptr.Off)
+			if l := p.pools[key]; len(l) > 0 {
+				v := l[len(l)-1]
+				p.pools[key] = l[:len(l)-1]
+				return v, true
+			}
+			// New func() any is the last field of sync.Pool
+			pt := fn.Signature.Recv().Type().Underlying().(*types.Pointer).Elem().Underlying().(*types.Struct)
+			idx := -1
+			for i := 0; i < pt.NumFields(); i++ {
+				if pt.Field(i).Name() == "New" {
+					idx = i
+				}
+			}
+			if idx < 0 {
+				p.unsup("sync.Pool without New field")
+			}
+			nv := p.loadCell(ptr, p.run.in.fieldOffset(pt, idx))
+			cl, ok := nv.(Closure)
+			if !ok || (cl.Fn == nil && cl.Bltn == "") {
+				return Iface{}, true
+			}
+			return tailCall{cl: cl}, true
+		},
 		"(*sync.Once).Do": func(p *Path, fn *ssa.Function, args []Value) (Value, bool) {
 			ptr := args[0].(Ptr)
 			key := fmt.Sprintf("%d:%d", ptr.Obj, ptr.Off)
